@@ -15,7 +15,7 @@ from concurrent.futures import ThreadPoolExecutor
 VERIF = os.path.dirname(os.path.dirname(os.path.abspath(__file__)))
 REPO = os.environ.get("GM2_REPO", "/repo")
 PLUGIN = os.path.join(VERIF, "build", "gm2facts.so")
-CACHE = os.path.join(VERIF, ".cache")
+CACHE = os.environ.get("GM2_CACHE") or os.path.join(VERIF, ".cache")
 
 # source files that exist under src/ but are deliberately not part of the
 # library/program build (reason per entry)
@@ -101,9 +101,19 @@ def extract(repo=None, tus=None, outdir=None, extra_flags=(), jobs=16):
     os.makedirs(outdir, exist_ok=True)
     todo = []
     result = {}
+    # scratch copies that differ from a base tree in a few .cpp files only re-parse those
+    seed = os.environ.get("GM2_CACHE_SEED")
+    changed = [c for c in os.environ.get("GM2_CHANGED", "").split(":") if c]
+    reuse = bool(seed) and bool(changed) and all(c.endswith(".cpp") for c in changed)
     for tu in tus:
         out = os.path.join(outdir, tu.replace("/", "__") + ".json")
         result[tu] = out
+        if reuse and tu not in changed and not os.path.exists(out + ".ok"):
+            src = os.path.join(seed, tu.replace("/", "__") + ".json")
+            if os.path.exists(src + ".ok"):
+                import shutil
+                shutil.copy(src, out)
+                open(out + ".ok", "w").close()
         if not (os.path.exists(out) and os.path.getsize(out) > 0 and os.path.exists(out + ".ok")):
             todo.append((repo, tu, out, list(extra_flags)))
     if todo:
@@ -112,7 +122,8 @@ def extract(repo=None, tus=None, outdir=None, extra_flags=(), jobs=16):
                 if rc != 0:
                     raise AnalysisBroken("clang failed on %s:\n%s" % (tu, err[-3000:]))
                 open(result[tu] + ".ok", "w").close()
-        _prune_cache(outdir)
+        if not os.environ.get("GM2_CACHE"):
+            _prune_cache(outdir)
     return result
 
 
